@@ -10,7 +10,7 @@ import subprocess
 import sys
 
 ROOT = os.path.dirname(os.path.dirname(os.path.abspath(__file__)))
-WT = "/tmp/seedreg_wt"
+WT = f"/tmp/seedreg_wt_{os.getpid()}"
 
 
 def sh(cmd, cwd=None, env=None, timeout=3000):
